@@ -25,7 +25,7 @@ TITLE = 'tal:repeat and repeat variables'
 LEVEL = 'exploration'
 SHARDS = {'quick': 16, 'thorough': 16}
 FLOOR = {'quick': 5000, 'thorough': 30000}
-REQUIRED_MONITORS = {'positions-compared': 5000, 'M-repeat': 10000, 'nests-compared': 500, 'separators-compared': 200, 'overlapping-renders-compared': 300}
+REQUIRED_MONITORS = {'positions-compared': 5000, 'M-repeat': 10000, 'nests-compared': 500, 'separators-compared': 200, 'overlapping-renders-compared': 300, 'self-referencing-iterables-compared': 300}
 RULE = ('(a) every (length, position) with length 0..60 (quick) / 0..150 (thorough) plus lengths 701,702,703,3998..4001 and '
         '18278,18279 x iterable kinds {list, tuple, range, generator, dict items view, str, one-shot iterator}: distinct by '
         '(kind, length, position), non-trivial iff length >= 1; (c) generated loop nests: distinct by (iterable kinds, '
@@ -518,6 +518,55 @@ def layer_reentrant(ctx, n):
 
 
 
+# --------------------------------------------------------------------------
+# (f) the iterable expression reads the variable the loop is about to bind (tree and table walking idioms):
+#     the expression is evaluated in the scope around the loop; afterwards the outer binding is back
+def layer_self_reference(ctx, n):
+    from chameleon import PageTemplate
+    rng = ctx.rng
+    for _ in range(n):
+        shape = rng.choice(['x-x', 'n-range-n', 'node-children', 'kv-v', 'arg-x-x'])
+        depth_lists = [[rng.randint(0, 9) for _ in range(rng.randint(0, 3))] for _ in range(rng.randint(1, 3))]
+        if shape in ('x-x', 'x-x-tagged'):
+            tag, attr = ('tal:r', 'repeat') if shape == 'x-x' else ('b', 'tal:repeat')
+            src = '<r><tal:o repeat="x xs"><%s %s="x x">[${x}]</%s>(${len(x)})</tal:o></r>' % (tag, attr, tag)
+            kw = {'xs': depth_lists}
+
+            def inner(l):
+                if shape == 'x-x':
+                    return ''.join('[%d]' % v for v in l)
+                return '\n'.join('<b>[%d]</b>' % v for v in l)
+            want = '<r>' + ''.join(inner(l) + '(%d)' % len(l) for l in depth_lists) + '</r>'
+        elif shape == 'arg-x-x':
+            src = '<r><tal:r repeat="x x">[${x}]</tal:r>(${len(x)})</r>'
+            kw = {'x': depth_lists[0]}
+            want = '<r>' + ''.join('[%d]' % v for v in depth_lists[0]) + '(%d)</r>' % len(depth_lists[0])
+        elif shape == 'n-range-n':
+            k = rng.randint(0, 4)
+            src = '<r><tal:r repeat="n range(n)">${n},</tal:r>|${n}</r>'
+            kw = {'n': k}
+            want = '<r>' + ''.join('%d,' % i for i in range(k)) + '|%d</r>' % k
+        elif shape == 'node-children':
+            tree = {'name': 'root', 'children': [{'name': 'c%d' % i, 'children': []} for i in range(rng.randint(0, 3))]}
+            src = "<r>${node['name']}:<tal:r repeat=\"node node['children']\">${node['name']};</tal:r>/${node['name']}</r>"
+            kw = {'node': tree}
+            want = '<r>root:' + ''.join('%s;' % c['name'] for c in tree['children']) + '/root</r>'
+        else:
+            pairs = [('k%d' % i, i) for i in range(rng.randint(0, 3))]
+            src = '<r><tal:r repeat="(k, v) v">${k}=${v};</tal:r>|${len(v)}</r>'
+            kw = {'v': pairs}
+            want = '<r>' + ''.join('%s=%d;' % p for p in pairs) + '|%d</r>' % len(pairs)
+        try:
+            got = PageTemplate(src)(**kw)
+        except Exception as e:
+            got = 'RAISED %s: %s' % (type(e).__name__, str(e).split('\n')[0][:100])
+        ctx.mon('self-referencing-iterables-compared')
+        ctx.case(key=('selfref', shape, len(repr(kw)) % 7), nontrivial=True)
+        if got != want:
+            ctx.violation('iterable-expression-reading-its-own-loop-variable',
+                          'template %r with %r\n  rendered %r\n  expected %r' % (src, kw, got, want), {'kind': 'selfref', 'src': src})
+
+
 def run(ctx):
     monitors.install(ctx, tokalg=False)
     install_repeat_contract(ctx)
@@ -525,6 +574,7 @@ def run(ctx):
     layer_nests(ctx, 150 if ctx.quick else 3000)
     layer_separator(ctx, 60 if ctx.quick else 1500)
     layer_reentrant(ctx, 40 if ctx.quick else 600)
+    layer_self_reference(ctx, 30 if ctx.quick else 500)
 
 
 def replay(data):
